@@ -326,3 +326,7 @@ def ob_open(fi: int, hi: int, si: int) -> bool:
 
 def why_open(fi, hi, si):
     return open_check(fi, RH[hi], si, TSS[0])[1]
+
+
+def dom_fresh_ranges():
+    return [(2, 5, ji, ci, 0, prior) for prior in (1, 2, 3, 4) for ji in range(6) for ci in (0, 1)]
